@@ -286,6 +286,7 @@ struct D
 			if ((int)x != (int)mv.d || (double)x != mv.d || !x.is(Var::NUMBER)) c.fail("value.int", vf::fmt("%s: %d vs %d", path.c_str(), (int)x, (int)mv.d)); break;
 		case M_NUMBER: {
 			double dd = (double)x;
+			if (!x.is(Var::NUMBER)) c.fail("is.double-is-a-number", path);
 			if (memcmp(&dd, &mv.d, 8) != 0) c.fail("value.double", vf::fmt("%s: %.17g vs %.17g", path.c_str(), dd, mv.d));
 			if (fabs(mv.d) < 2e9 && (int)x != (int)mv.d) c.fail("value.double-as-int", path);
 			// the other integer accessors, for whole numbers inside their ranges
@@ -293,7 +294,9 @@ struct D
 			if (fabs(mv.d) < 9e15 && mv.d == floor(mv.d) && (Long)x != (Long)mv.d) c.fail("value.double-as-Long", vf::fmt("%s: (Long) gives %lld, value %.0f", path.c_str(), (long long)(Long)x, mv.d));
 			break;
 		}
-		case M_FLOAT: if ((float)x != (float)mv.d || (double)x != mv.d) c.fail("value.float", path); break;
+		case M_FLOAT: if ((float)x != (float)mv.d || (double)x != mv.d) c.fail("value.float", path);
+			if (!x.is(Var::NUMBER)) c.fail("is.float-is-a-number", path);
+			break;
 		case M_STRING: {
 			if (strcmp(*x, mv.s.c_str()) != 0) c.fail("value.string", vf::fmt("%s: '%s' vs '%s'", path.c_str(), *x, mv.s.c_str()));
 			String s = x;
